@@ -47,6 +47,8 @@ C0 == [modules |-> <<>>, lockAfter |-> 2, lockWindow |-> 2, lockDuration |-> 2, 
        whitelist |-> <<>>, logoutMethod |-> "DELETE", mwReqs |-> 0, mwFail |-> "404",
        errWrites |-> FALSE, json |-> FALSE, mailGo |-> FALSE, foldPid |-> FALSE, regNoWhitelist |-> FALSE, appHandles2FA |-> FALSE]
 
+Ev(act, b) == [E0 EXCEPT !.act = act, !.b = b]
+
 Seed2 == <<S0("u1", 1, TRUE), S0("u2", 2, TRUE)>>
 SeedUnconf == <<S0("u1", 1, TRUE), S0("u2", 2, FALSE)>>
 
@@ -102,6 +104,17 @@ WorldsOf(Fam) ==
              m \in { <<"auth", "totp", "sms", "recovery", "logout">>,
                      <<"auth", "remember", "totp", "sms", "recovery", "logout">> },
              ea \in BOOLEAN }
+         \* ... and starting from established sessions (`pre` runs before the exploration):
+         \* an account with SMS (resp. TOTP) 2FA, fully logged in through its second factor
+         \cup { [cfg |-> [C0 EXCEPT !.modules = <<"auth", "totp", "sms", "recovery", "logout">>],
+                 seed |-> << [S0("u1", 1, TRUE) EXCEPT !.sms = 1, !.rc = TRUE], [S0("u2", 2, TRUE) EXCEPT !.totp = TRUE, !.rc = TRUE] >>,
+                 pre |-> pr] :
+               pr \in { << [Ev("LoginPost", "b1") EXCEPT !.pid = "u1", !.pw = 1], [Ev("SmsValidate", "b1") EXCEPT !.code = 1],
+                           [Ev("Tick", NONE) EXCEPT !.d = 1] >>,
+                        << [Ev("LoginPost", "b1") EXCEPT !.pid = "u2", !.pw = 2], [Ev("TotpValidate", "b1") EXCEPT !.tok = 1, !.code = 1] >> } }
+         \* a plain account, logged in
+         \cup { [cfg |-> [C0 EXCEPT !.modules = <<"auth", "totp", "sms", "recovery", "logout">>, !.emailAuth = ea, !.appHandles2FA = ea],
+                 seed |-> Seed2, pre |-> << [Ev("LoginPost", "b1") EXCEPT !.pid = "u1", !.pw = 1] >>] : ea \in BOOLEAN }
     [] Fam = "otp" ->
          { [cfg |-> [C0 EXCEPT !.modules = m, !.lockAfter = 1],
             seed |-> << [S0("u1", 1, TRUE) EXCEPT !.otps = 2], [S0("u2", 2, TRUE) EXCEPT !.otps = 4] >>] :
@@ -122,8 +135,6 @@ Worlds ==
 
 -----------------------------------------------------------------------------
 (* events *)
-
-Ev(act, b) == [E0 EXCEPT !.act = act, !.b = b]
 
 LoginEvents ==
   { [Ev("LoginPost", b) EXCEPT !.pid = p, !.pw = w, !.rm = r] :
@@ -240,12 +251,17 @@ Events(S, c) == IF Family \in FaultFamilies THEN WithFaults(EventsOf(Base, S, c)
 
 -----------------------------------------------------------------------------
 
+\* a world may name events that run before the exploration starts (an established session, ...)
+PreOf(w) == IF "pre" \in DOMAIN w THEN w.pre ELSE <<>>
+RECURSIVE RunPre(_, _, _)
+RunPre(S, c, es) == IF es = <<>> THEN S ELSE RunPre(Apply(S, c, Head(es)).st, c, Tail(es))
+
 Init ==
-  /\ \E w \in Worlds : cfg = w.cfg /\ seed = w.seed /\ st = SeedState(w.seed)
+  /\ \E w \in Worlds : /\ cfg = w.cfg /\ seed = w.seed /\ st = RunPre(SeedState(w.seed), w.cfg, PreOf(w))
+                        /\ js = IF EmitJson THEN ToJson([cfg |-> w.cfg, seed |-> w.seed, pre |-> PreOf(w)]) ELSE ""
   /\ resp = R0
   /\ step = E0
   /\ viol = {}
-  /\ js = IF EmitJson THEN ToJson([cfg |-> cfg, seed |-> seed]) ELSE ""
 
 Next ==
   \E e \in Events(st, cfg) :
